@@ -117,7 +117,10 @@ class Gen:
         return True
 
     def emit_send(self, w, a, m):
-        self.ops.append(f"send {w} {a} - {self.body()} {m}")
+        # a cooked REQ socket replaces whatever header the caller left in the message (a recycled message, a pre-filled
+        # header): every 6th send submits one
+        hdr = "-" if not self.r.chance(1, 6) else self.r.choice([self.r.bytes(4).hex(), "80000001", "8000000180000002", self.r.bytes(8).hex()])
+        self.ops.append(f"send {w} {a} {hdr} {self.body()} {m}")
         if m != "nb":
             self.busy.add(a)
         if self.npipes == 0 or (w in self.sent and self.r.chance(1, 3)):
